@@ -22,7 +22,7 @@
    case), which hands these items to parsePrint -- that step stays with the harness.
    Property theorems only. *)
 (* source tie by translation: the lemmas of these files are obligations of this property *)
-From Soy Require Import Proofs.SourceTieExpr Proofs.SourceTieQuote Proofs.SourceTieAstPrint.
+From Soy Require Import Proofs.SourceTieExpr Proofs.SourceTieQuote Proofs.SourceTieAstPrint Proofs.SourceTieUnquote.
 From Soy Require Import Model.Bytes Model.Num Model.Values Model.Ast Model.Token Model.NumLit Model.Quote Model.ExprParser
   Model.AstPrint Generated.Tables Spec.ExprSyntax Proofs.ExprParserRules Proofs.LiteralProofs Proofs.ExprParserProofs Proofs.PlaceholderTextProofs.
 From Soy Require Import Model.Outcome Model.MsgId Proofs.MsgIdProofs.
@@ -184,9 +184,12 @@ Proof. exact key_ok_valid_utf8. Qed.
 Print Assumptions C17_map_keys.
 
 (* The float side condition is decidable ([float_okb], sound: float_okb f = true -> float_ok f).
-   NOT a universal theorem: a computed sample -- every dyadic (2k+1)/2^j, k < 300, j in
-   {0,1,2,3,5,9,10,14,20}, of either sign, that the printer model can print at all
-   (magnitude >= 2^-9, at most 15 significant digits) reads back as itself. *)
+   NOT a universal theorem: a computed sample -- every dyadic (2k+1)/2^j, k < 60, j in
+   {0,1,2,3,5,9,10,14,20}, of either sign (1080 values) is printed by the printer model
+   (Num.fl_to_string covers all finite floats) and reads back as itself.  A float whose shortest
+   representation is NOT its exact decimal expansion (16 or 17 significant digits, e.g. 599/2^20 =
+   0.00057125091552734375, printed by Go as 0.0005712509155273438) is outside wf_expr: the literal
+   reader of the model (NumLit.parse_float) reads exact decimals only, so float_ok does not hold. *)
 Theorem C17_float_checker_sound : forall f, float_okb f = true -> float_ok f.
 Proof. exact float_okb_sound. Qed.
 Print Assumptions C17_float_checker_sound.
@@ -194,11 +197,11 @@ Print Assumptions C17_float_checker_sound.
 Fixpoint c17_upto (n : nat) : list Z := match n with O => [] | S k => Z.of_nat k :: c17_upto k end.
 Definition c17_float_samples : list fl :=
   flat_map (fun k => flat_map (fun j => match mk_fl (2 * k + 1) (- Z.of_nat j) with Some f => [f; fl_neg f] | None => [] end)
-                              [0; 1; 2; 3; 5; 9; 10; 14; 20]%nat) (c17_upto 300).
+                              [0; 1; 2; 3; 5; 9; 10; 14; 20]%nat) (c17_upto 60).
 Example C17_float_sample :
-  forallb (fun f => match fl_print f with Some _ => float_okb f | None => true end) c17_float_samples = true
-  /\ length (filter float_okb c17_float_samples) = 3600%nat.
-Proof. vm_compute. split; reflexivity. Qed.
+  forallb float_okb c17_float_samples = true /\ length c17_float_samples = 1080%nat /\
+  fl_print (FFin 599 (-20)) = Some (b "0.0005712509155273438") /\ float_okb (FFin 599 (-20)) = false.
+Proof. vm_compute. repeat split; reflexivity. Qed.
 
 (* ---- non-vacuity: concrete well-formed trees, printed and read back by computation ---- *)
 Definition ex_nested : node :=            (* (1 + $a.b?[0]) * -(5) *)
@@ -267,24 +270,36 @@ Proof. split; [vm_compute; reflexivity|]. vm_compute. split; reflexivity. Qed.
 (* ---- extension to template bodies (the property's text speaks of expressions and print
    commands; this is the same statement for the command forms whose String() is source syntax
    the parser accepts again: raw text, print, {log}, {debugger}, {let} in both forms,
-   {if}/{elseif}/{else}, {for}/{ifempty}, nested to any depth).  Model/Parser.v's itemList
-   (parse.go itemList / textOrTag / beginTag and the command parsers, same next/backup/peek
-   order as the Go code), started in ANY parser state outside a {msg} that delivers the items
-   of a well-formed body followed by "{" and an item u that ends the list, returns that body
-   itself for every fuel above some bound, has consumed "{" and u, and leaves the items that
-   follow.  Not covered: {switch} (its default case prints as "{case }"), {call}, {msg}, {css},
-   templates, soydoc, namespace -- see notes/astprint-reparse.md. ---- *)
+   {if}/{elseif}/{else}, {for}/{ifempty}, {switch}/{case}/{default}, {call} with data="all" /
+   data="e" and {param k: e/} / {param k}..{/param}, {css}, {msg} without {plural}, nested to any depth).
+   Model/Parser.v's itemList (parse.go itemList / textOrTag / beginTag and the command parsers,
+   same next/backup/peek order as the Go code), started in ANY parser state (inside or outside a
+   {msg}: flag m) that delivers the items of a well-formed body followed by "{" and an item u
+   that ends the list, returns that body itself for every fuel above some bound, has consumed
+   "{" and u, and leaves the items that follow; the state is unchanged but for the token plumbing
+   and the log of nested scanners.
+   External functions enter with their contracts: efuel (budget of the nested expression parse of
+   data="e" / {css e, x}: enough whenever some budget is), unq (strconv.Unquote inverts
+   strconv.Quote on the printer model's domain); lexq (the nested scanner) enters through
+   wf_body's clause quoted_ok: it reads the printed text of the expression as the expression's items.
+   {msg meaning= desc=} with raw text, html tags and command placeholders is covered ({msg} reads its
+   body with tree.inmsg set and placeholderizes it; the theorem shows the children come back).
+   Not covered: {plural} inside {msg}, templates, soydoc, namespace -- see notes/astprint-reparse.md. ---- *)
 Theorem C17_parse_body_roundtrip_partial :
-  forall (inlen : N) (lexq : bstr -> list tok) (unq : bstr -> option bstr) (efuel : list tok -> nat)
-         x until u rest,
-  wf_body x -> good_until until = true -> one_of (t_typ u) until = true ->
-  forall s, stream (c_p s) = body_toks x ++ T_ldelim :: u :: rest -> inv (c_p s) -> c_inmsg s = false ->
-  exists p', stream p' = rest /\ inv p' /\
-    exists f0, forall f, (f0 <= f)%nat -> item_list inlen lexq unq parse_expr efuel f until s = COk x (set_p s p').
+  forall (ns : bstr) (al : list (bstr * bstr)) (inlen : N) (lexq : bstr -> list tok) (unq : bstr -> option bstr) (efuel : list tok -> nat),
+  (forall ts e rest, Parses 0 ts e rest -> exists p', parse_expr (efuel ts) 0 (pst_init ts) = POk e p') ->
+  (forall s q, go_quote s = Some q -> unq q = Some s) ->
+  forall m x until u rest,
+  wf_body lexq (nameok ns al) m x -> good_until until = true -> one_of (t_typ u) until = true ->
+  forall s, stream (c_p s) = body_toks x ++ T_ldelim :: u :: rest -> inv (c_p s) ->
+            c_inmsg s = m -> c_ns s = ns -> c_al s = al ->
+  exists p' sc', stream p' = rest /\ inv p' /\
+    exists f0, forall f, (f0 <= f)%nat -> item_list inlen lexq unq parse_expr efuel f until s = COk x (set_ps s p' sc').
 Proof.
-  intros inlen lexq unq efuel x until u rest Hwf Hg Hu s Hs Hi Hm.
-  destruct (parse_body_roundtrip inlen lexq unq efuel x until u rest Hwf Hg Hu s Hs Hi Hm) as (p' & H1 & H2 & _ & _ & f0 & HF).
-  exists p'. split; [exact H1|]. split; [exact H2|]. exists f0. intros f Hf. exact (HF f f Hf Hf).
+  intros ns al inlen lexq unq efuel Hef Hunq m x until u rest Hwf Hg Hu s Hs Hi Hm Hns Hal.
+  destruct (parse_body_roundtrip ns al inlen lexq unq efuel Hef Hunq m x until u rest Hwf Hg Hu s (c_p s) (c_scans s) Hs Hi (conj Hm (conj Hns Hal)))
+    as (p' & sc' & H1 & H2 & _ & _ & f0 & HF).
+  exists p', sc'. split; [exact H1|]. split; [exact H2|]. exists f0. intros f Hf. rewrite <- (HF f f Hf Hf), set_ps_eta. reflexivity.
 Qed.
 Print Assumptions C17_parse_body_roundtrip_partial.
 
@@ -295,6 +310,11 @@ Example C17_until_lists_good :
 Proof. vm_compute. reflexivity. Qed.
 
 (* non-vacuity: a body with every covered form, well-formed, printed, and read back by computation *)
+(* the nested scanner of the example: lexExpr("$d") *)
+Definition ex_lexq (s : bstr) : list tok :=
+  if bstr_eqb s (b "$d") then [tk pk_itemDollarIdent 2 (b "$d"); tk pit_Error 2 (b "unclosed tag")] else [].
+Definition ex_unq (q : bstr) : option bstr := match q with _ :: r => Some (removelast r) | [] => None end.
+
 Definition ex_body : node :=
   NList 5 [ NRawText 5 (b "Hi ");
             NPrint 7 (NDataRef 7 (b "a") []) [NDirective 8 (b "truncate") [NInt 9 5]];
@@ -304,24 +324,41 @@ Definition ex_body : node :=
             NFor 20 (b "i") (NFunc 21 (b "range") [NInt 22 3])
                  (NList 0 [NLetValue 23 (b "v") (NBin OAdd 25 (NDataRef 24 (b "i") []) (NInt 26 1)); NPrint 27 (NDataRef 27 (b "v") []) []])
                  (Some (NList 28 [NRawText 28 (b "none")]));
-            NLetContent 30 (b "w") (NList 0 [NLog 31 (NList 32 [NRawText 32 (b "in log")])]) ].
+            NLetContent 30 (b "w") (NList 0 [NLog 31 (NList 32 [NRawText 32 (b "in log")])]);
+            NSwitch 40 (NDataRef 41 (b "k") [])
+                 [ NSwitchCase 42 [NInt 43 1; NInt 44 2] (NList 45 [NRawText 45 (b "one")]);
+                   NSwitchCase 46 [] (NList 0 [NCss 47 None (b "cls")]) ];
+            NCall 50 (b "ns.other") false (Some (NDataRef 2 (b "d") []))
+                 [ NParamValue 51 (b "k") (NInt 52 1);
+                   NParamContent 53 (b "c") (NList 0 [NCss 54 (Some (NDataRef 2 (b "d") [])) (b "suf")]) ];
+            NCall 60 (b "ns.third") true None [];
+            NMsg 70 0 (b "verb") (b "greeting, imperative")
+                 [ NRawText 71 (b "Click "); NMsgPlaceholder 77 [] (NMsgHtmlTag 77 (b "<a href=x>"));
+                   NMsgPlaceholder 88 [] (NPrint 88 (NDataRef 88 (b "label") []) []);
+                   NMsgPlaceholder 89 [] (NMsgHtmlTag 89 (b "</a>")); NRawText 93 (b " now") ] ].
 
-Example C17_body_wf_nonvacuous : wf_body ex_body.
+Example C17_body_wf_nonvacuous : wf_body ex_lexq (nameok (b "ns") []) false ex_body.
 Proof.
-  cbn. unfold key_ok, float_ok.
+  cbn -[msg_raw_text rawtext_run go_quote print_node trim_space run_text run_pos split_dots].
+  unfold key_ok, float_ok, quoted_ok, call_name_ok, nameok, plain, no_byte, run_ok.
   repeat match goal with
+         | H : _ :: _ = [] |- _ => discriminate H
          | |- _ /\ _ => split
          | |- True => exact I
+         | |- exists _, _ => eexists
+         | Ha : c_al ?s = _ |- resolve_name ?s _ = _ => unfold resolve_name; rewrite Ha; vm_compute; reflexivity
+         | |- forall _, _ => intro
+         | |- wf_expr _ => cbn
          | |- _ = _ => vm_compute; reflexivity
-         | |- _ <> _ => discriminate
+         | |- _ <> _ => vm_compute; discriminate
          end.
 Qed.
 
 Example C17_body_prints_nonvacuous :
-  print_tree ex_body = Some (b "Hi {$a|truncate:5}{if $a and not $b}x{elseif $c}{else}{debugger}{/if}{for $i in range(3)}{let $v: $i + 1 /}{$v}{ifempty}none{/for}{let $w}{log}in log{/log}{/let}").
+  print_tree ex_body = Some (b "Hi {$a|truncate:5}{if $a and not $b}x{elseif $c}{else}{debugger}{/if}{for $i in range(3)}{let $v: $i + 1 /}{$v}{ifempty}none{/for}{let $w}{log}in log{/log}{/let}{switch $k}{case 1,2}one{case }{css cls}{/switch}{call ns.other data=""$d""}{param k: 1/}{param c}{css $d, suf}{/param}{/call}{call ns.third data=""all""/}{msg meaning=""verb"" desc=""greeting, imperative""}Click <a href=x>{$label}</a> now{/msg}").
 Proof. vm_compute. reflexivity. Qed.
 
 Example C17_body_roundtrip_nonvacuous :
-  exists s, item_list 0 (fun _ => []) (fun _ => None) parse_expr (fun _ => 0%nat) 60 u_template
+  exists s, item_list 0 ex_lexq ex_unq parse_expr (fun _ => 20%nat) 60 u_template
               (cst_init (body_toks ex_body ++ [T_ldelim; kw pit_TemplateEnd 0; T_rdelim])) = COk ex_body s.
 Proof. eexists. vm_compute. reflexivity. Qed.
